@@ -56,6 +56,12 @@ func c06Tree(r *rand.Rand, root, name string, shape string, big int) (dirs, all 
 				mk(fmt.Sprintf("%s/f%05d.dat", rel, i), int64(i%7))
 			}
 		}
+	case "n512", "n1024", "n515", "n1536":
+		var n int
+		fmt.Sscanf(shape, "n%d", &n)
+		for i := 0; i < n; i++ {
+			mk(fmt.Sprintf("%s/e%04d", rel, i), int64(i%3))
+		}
 	case "nested":
 		cur := rel
 		for d := 0; d < 6; d++ {
@@ -113,7 +119,7 @@ func C06(e *Env) {
 	addr := p.HostPort()
 	w := &model.World{Root: root, Views: model.PlainViews, Probe: func() error { return host.Probe(addr) }}
 	rng := e.Rng(6)
-	shapes := []string{"empty", "one", "many", "nested", "names", "links", "random"}
+	shapes := []string{"empty", "one", "many", "nested", "names", "links", "random", "n512", "n1024", "n515", "n1536"}
 	big := e.Pick(5000, 20000)
 	type sess struct {
 		shape, pat string
@@ -135,7 +141,7 @@ func C06(e *Env) {
 			if names, err := os.ReadDir(filepath.Join(root, d)); err == nil {
 				cnt = len(names)
 			}
-			for _, pat := range []string{"READDIR", "RDE", "RDE2", "mix"} {
+			for _, pat := range []string{"READDIR", "RDE", "RDE2", "mix", "mix-3-then-bulk"} {
 				if len(dirs) > 12 && rng.Intn(3) != 0 {
 					continue
 				}
@@ -151,6 +157,8 @@ func C06(e *Env) {
 					for i := 0; i < cnt+2; i++ {
 						reqs = append(reqs, wire.Bare(op))
 					}
+				case "mix-3-then-bulk":
+					reqs = append(reqs, wire.Bare(wire.OpRDE), wire.Bare(wire.OpRDE2), wire.Bare(wire.OpRDE), wire.Bare(wire.OpReadDir), wire.Bare(wire.OpRDE))
 				case "mix":
 					for i := 0; i < cnt+2; i++ {
 						switch rng.Intn(5) {
